@@ -108,6 +108,12 @@ def main():
     if not us:
         print("UNDECIDED property=%s reason=no proof units registered" % prop)
         return 2
+    if any(u.back_end != "BV" for u in us):
+        try:
+            units.get_consts(tu, wd)
+        except jast.ExtractionError as e:
+            print("UNDECIDED property=%s reason=extraction: %s" % (prop, str(e)[:500]))
+            return 2
     res = units.run_units(tu, us, wd, jobs=a.jobs)
     kf = known_findings()
     violations, undec, known_hits = [], [], []
@@ -154,6 +160,8 @@ def main():
     vcount = 0
     for (r, fresh) in violations:
         u = r["unit"]
+        # lead with a functional refutation when there is one (restrict-discipline items carry no input)
+        fresh = sorted(fresh, key=lambda f: 1 if (len(f) > 2 and "/* restrict */" in f[2]) else 0)
         path, found_input = replay_mod.write_replay(ROOT, prop, u, r, fresh, tu, wd)
         vcount += 1
         print("VIOLATION property=%s replay=%s unit=%s obligation=%s%s" % (prop, path, u.label, fresh[0][0], "" if found_input else " no-failing-input-found"))
